@@ -239,7 +239,7 @@ def length_writers(ctx, mf):
     be = mir.BVBackend()
     n = z3.BitVec("n", 64)
     for fname, width, maxv in (("write_int_length", 4, (1 << 31) - 1), ("write_short_length", 2, (1 << 16) - 1)):
-        fn = mf.find(r"^" + fname + r"\(_1: usize")
+        fn = mf.find(r"(^|::)" + fname + r"\(_1: usize")
         it = mir.Interp(mf, be, models(), inline=INLINE, max_steps=2000)
         sink = Cell(Seq([]))
         paths = it.run(fn, [Int(n, 64, False), Ref(sink)], [])
